@@ -257,3 +257,18 @@ Definition claims_inert (pre : vt) (cs : list N) : bool :=
   match pst (vparser pre) with Ground => inert_spec cs | _ => false end.
 
 Definition known_C20 (cs : list N) : bool := kf_c20 cs.
+
+(** C06 (margins): switching screens or toggling any DEC / ANSI mode never changes the scroll region; only DECSTBM, the
+    resets and a height change (C05 / resize) do *)
+Definition holds_C06_modes (pre : vt) (f : func) (post : vt) : bool :=
+  match f with
+  | Decset _ | Decrst _ | Sm _ | Rm _ =>
+    (top (vterm pre) =? top (vterm post)) && (bot (vterm pre) =? bot (vterm post))
+  | _ => true
+  end.
+
+(** a resize resets the region to the full screen exactly when the height changes *)
+Definition holds_C06_resize (pre post : vt) : bool :=
+  if rows (vterm pre) =? rows (vterm post)
+  then (top (vterm pre) =? top (vterm post)) && (bot (vterm pre) =? bot (vterm post))
+  else (top (vterm post) =? 0) && (bot (vterm post) =? rows (vterm post) - 1).
